@@ -17,4 +17,9 @@ CASES = [
          old="            disp.disposable = scheduler.schedule_relative(time, periodic, state=state)", new="            scheduler.schedule_relative(time, periodic, state=state)")]),
     dict(expect="silent", desc="periodic: early return inverted", edits=[dict(file=PS,
          old="            if disp.is_disposed:\n                return None\n", new="            if not (not disp.is_disposed):\n                return None\n")]),
+    dict(expect="fire", desc="seed C35-r3/1: VirtualTimeScheduler.schedule_relative overdue fast path forgets the state", names="P6-state-forwarded", edits=[dict(file="reactivex/scheduler/virtualtimescheduler.py",
+         old="        time: typing.AbsoluteTime = self.add(self._clock, duetime)\n        return self.schedule_absolute(time, action, state=state)",
+         new="        if self.to_seconds(duetime) < 0:\n            return self.schedule(action)\n\n        time: typing.AbsoluteTime = self.add(self._clock, duetime)\n        return self.schedule_absolute(time, action, state=state)")]),
+    dict(expect="fire", desc="TimeoutScheduler.schedule_relative zero-delay path drops the state", names="P6-state-forwarded", edits=[dict(file="reactivex/scheduler/timeoutscheduler.py",
+         old="            return self.schedule(action, state)", new="            return self.schedule(action)")]),
 ]
